@@ -343,6 +343,31 @@ type ActionNwTtl struct {
 	pad   []byte // 3bytes
 }
 
+func (a *ActionNwTtl) Len() (n uint16) {
+	return a.ActionHeader.Len() + 4
+}
+
+func (a *ActionNwTtl) MarshalBinary() (data []byte, err error) {
+	data, err = a.ActionHeader.MarshalBinary()
+	if err != nil {
+		return
+	}
+
+	bytes := make([]byte, 4)
+	bytes[0] = a.NwTtl
+	data = append(data, bytes...)
+	return
+}
+
+func (a *ActionNwTtl) UnmarshalBinary(data []byte) error {
+	if len(data) < int(a.Len()) {
+		return errors.New("The []byte is too short to unmarshal an ActionNwTtl message.")
+	}
+	a.ActionHeader.UnmarshalBinary(data[:4])
+	a.NwTtl = data[4]
+	return nil
+}
+
 type ActionPush struct {
 	ActionHeader
 	EtherType uint16
